@@ -118,7 +118,7 @@ func doSelfTestTo(prop, repo, verif string, w io.Writer) int {
 			baseline = notDischarged(self, repo)
 		}
 	}
-	sem := make(chan struct{}, 8)
+	sem := make(chan struct{}, 12)
 	var wg sync.WaitGroup
 	for i, m := range sel {
 		wg.Add(1)
